@@ -355,7 +355,7 @@ func corr(c *hc.Ctx) []*canvas.Path {
 				} else {
 					c.Count("scenario:collinear-reversal:" + kind)
 				}
-					} else if s.head[0] == 'E' && len(s.ops) == 0 && c.Chance(0.12) {
+			} else if s.head[0] == 'E' && len(s.ops) == 0 && c.Chance(0.12) {
 				// scenario: curves at large coordinates (1e5..1e7: one ulp is 1e-11..2e-9, around Epsilon), a
 				// closed curved subpath followed by a closed flat one — the end point of a flattened /
 				// converted arc then differs from the record's end point by rounding noise, which replace has
